@@ -282,15 +282,17 @@ Definition step (s : state) : sres :=
   end.
 
 (* the loop `for vm.ip < len(vm.bytecode)` and the epilogue *)
-Inductive rres := Running (s : state) | Finished (r : result).
+(* Finished carries the machine state in which the loop stopped (what a reused VM keeps) *)
+Inductive rres := Running (s : state) | Finished (r : result) (last : state).
 
 Definition tick (s : state) : rres :=
   if Nat.ltb (pc s) (csize C) then
     match step s with
     | Next s' => Running s'
-    | Crash e l s' => Finished (Stop e l s')
+    | Crash e l s' => Finished (Stop e l s') s
     end
-  else Finished (Done (match stk s with v :: _ => v | [] => VNil end) (rs s)).
+  else Finished (Done (match stk s with v :: _ => v | [] => VNil end) (rs s))
+                (mkSt (pc s) (match stk s with _ :: t => t | [] => [] end) (scs s) (rs s)).
 
 (* runs up to 2^d steps *)
 Fixpoint run_depth (d : nat) (s : state) : rres :=
@@ -308,6 +310,6 @@ Definition init_state : state := mkSt 0 [] [] rs0.
 
 Definition run_code (fe : fenv) (cfg : config) (env : value) (C : code) (depth : nat) : option result :=
   match run_depth fe cfg env C depth init_state with
-  | Finished r => Some r
+  | Finished r _ => Some r
   | Running _ => None          (* out of fuel *)
   end.
